@@ -390,8 +390,12 @@ where
         // check the eventually properties
         for (i, property) in properties.iter().enumerate() {
             if ebits.contains(i) {
-                // Races other threads, but that's fine.
-                discoveries.insert(property.name, fingerprint_path.clone());
+                // Never replace an existing discovery: once a property has one, its bit is no
+                // longer maintained along the trace (see the property loop above), so the bit
+                // may be stale here.
+                discoveries
+                    .entry(property.name)
+                    .or_insert_with(|| fingerprint_path.clone());
             }
         }
     }
